@@ -70,6 +70,74 @@ pub fn run(ctx: &'static Ctx) {
         } else {
             ctx.note(format!("{}: full menu product has {} points, not enumerated in this tier (deviation bound {} applies)", target.name(), total, bound));
         }
+        // (d) every byte value as an integer and as the content of every string member, and (e) one
+        // unusual entry at every position of every descriptor list (complete messages only)
+        if let Target::Cmd(_) = target {
+            let mut cases: Vec<(usize, V, String)> = Vec::new();
+            for (li, info) in sh.plan.leaves.iter().enumerate() {
+                match &info.menu[0] {
+                    V::U(_) => {
+                        let max = info.menu.iter().filter_map(|v| v.as_u64()).max().unwrap_or(0);
+                        for x in 0..=255u64 {
+                            if x <= max {
+                                cases.push((li, V::U(x), format!("uint({})", x)));
+                            }
+                        }
+                    }
+                    V::B(d) => {
+                        for b in 0..=255u8 {
+                            for n in [1usize, 2, d.len()] {
+                                cases.push((li, V::B(vec![b; n]), format!("{} bytes of {:#04x}", n, b)));
+                            }
+                        }
+                    }
+                    V::T(d) => {
+                        for c in (0u32..=255).filter_map(char::from_u32) {
+                            for n in [1usize, 2, d.len() / c.len_utf8()] {
+                                cases.push((li, V::t(&c.to_string().repeat(n)), format!("U+{:04X} x {}", c as u32, n)));
+                            }
+                        }
+                    }
+                    V::A(a) if matches!(a.first(), Some(V::M(m)) if m.iter().any(|(k, _)| *k == V::t("id"))) => {
+                        let cap = info.menu.iter().filter_map(|v| v.as_arr().map(|x| x.len())).max().unwrap_or(2);
+                        let odd: Vec<(&str, V)> = vec![
+                            ("empty id", crate::refmodel::descriptor(90, 0)),
+                            ("id of 255 bytes", crate::refmodel::descriptor(91, 255)),
+                            ("id of 256 bytes", crate::refmodel::descriptor(92, 256)),
+                            ("foreign type", V::M(vec![(V::t("id"), V::B(vec![7; 16])), (V::t("type"), V::t("x"))])),
+                            ("empty type", V::M(vec![(V::t("id"), V::B(vec![8; 16])), (V::t("type"), V::t(""))])),
+                            ("same id as its neighbours", crate::refmodel::descriptor(0, 16)),
+                        ];
+                        for n in 1..=cap {
+                            for pos in 0..n {
+                                for (what, e) in &odd {
+                                    let mut items: Vec<V> = (0..n).map(|i| crate::refmodel::descriptor(i, 16 + i % 7)).collect();
+                                    items[pos] = e.clone();
+                                    cases.push((li, V::A(items), format!("{} at position {} of {}", what, pos, n)));
+                                }
+                            }
+                        }
+                    }
+                    _ => {}
+                }
+            }
+            let (sh3, cr) = (sh.clone(), &cases);
+            sweep(ctx, &format!("{} byte-valued contents and list positions", target.name()), cases.len() as u64, "every leaf of the full anchor: integers 0..=255; byte strings and texts made of one repeated byte / Latin-1 character (every value) at length 1, 2 and the default length; descriptor lists of every length with one unusual entry at every position", move |idx, l| {
+                let (li, v, what) = &cr[idx as usize];
+                let wire = sh3.plan.build_with(full, &[], &[(*li, v.clone())]);
+                // C01 speaks about well-formed requests: a value the reference does not accept for this member is not asserted here
+                if !matches!(sh3.target.expect(&wire), crate::subject::Dec::Ok(_)) {
+                    l.bump("not well-formed for this member");
+                    return;
+                }
+                l.nontrivial += 1;
+                let verdict = compare(P, &sh3.target, &wire);
+                l.bump(if verdict.ok { "agree" } else { "disagree" });
+                if !verdict.ok {
+                    l.fail(ctx, idx, verdict, || case_json(&sh3.target, &wire, json!({"leaf": sh3.plan.leaves[*li].path, "value": what})));
+                }
+            });
+        }
         let w = sh.plan.build(full, &[]);
         if matches!(target, Target::Cmd(0x01) | Target::Cmd(0x0a)) {
             ctx.sample(json!({"target": target.name(), "full_anchor": format!("{:?}", w), "optional_members": sh.plan.opts.len(), "leaves": sh.plan.leaves.len()}));
